@@ -5,11 +5,13 @@ Imports only Model/* and Generated/* (no proofs, no Mathlib), so it links as a n
 import Lean.Data.Json
 import RefurbVerif.Model.Catalogue
 import RefurbVerif.Generated.Catalogue
+import RefurbVerif.Wire.Basic
+import RefurbVerif.Wire.Settings
 
 open Lean RefurbVerif
 
-def getStr (j : Json) (k : String) : String := (j.getObjValAs? String k).toOption.getD ""
-def getNat (j : Json) (k : String) : Nat := (j.getObjValAs? Nat k).toOption.getD 0
+def getStr := Wire.str
+def getNat := Wire.nat
 
 def handleExplain (j : Json) : Json :=
   match explain Generated.catalogue (getStr j "prefix", getNat j "code") with
@@ -21,7 +23,10 @@ def handleExplain (j : Json) : Json :=
 def handle (j : Json) : Json :=
   match getStr j "verb" with
   | "explain" => handleExplain j
-  | v => Json.mkObj [("error", s!"unknown verb {v}")]
+  | v =>
+    match Wire.handleSettings v j with
+    | some r => r
+    | none => Json.mkObj [("error", s!"unknown verb {v}")]
 
 partial def loop (h : IO.FS.Stream) (out : IO.FS.Stream) : IO Unit := do
   let line ← h.getLine
